@@ -89,6 +89,10 @@ class ModuleInfo(object):
         self.relpath = relpath
         self.source = source
         self.tree = ast.parse(source, filename=path)
+        self.normalized = {}
+        if os.environ.get("LASIO_SA_NORMALIZE", "1") != "0":
+            from .normalize import normalize
+            self.normalized = normalize(self.tree)
         self.lines = source.splitlines()
         # alias -> ("module", modname) | ("name", modname, attr)
         self.imports = {}
